@@ -78,11 +78,13 @@ def mc_asis(ctx, cfg, expect_tag=None, expect_inv=None, expect_live=False, timeo
     ok, out = ctx.tlc_mc("MC_Announce", cfg, timeout=timeout, expect_ok=False, workers=MCW)
     if ok:
         raise vlib.MachineryError("as-is configuration %s was expected to violate the design obligations but passed" % cfg)
-    if expect_tag and ('viol = "%s"' % expect_tag) not in out:
+    tags = [expect_tag] if isinstance(expect_tag, str) else list(expect_tag or [])
+    if tags and not any(('viol = "%s"' % t) in out for t in tags):
         raise vlib.MachineryError("as-is configuration %s failed, but not with %s:\n%s" % (cfg, expect_tag, out[-3000:]))
     if expect_live and "Temporal properties were violated" not in out and "Invariant Inv is violated" not in out:
         raise vlib.MachineryError("as-is configuration %s: expected a liveness/invariant counterexample:\n%s" % (cfg, out[-3000:]))
-    ctx.extra.setdefault("asis_design_counterexamples", []).append({"cfg": cfg, "obligation": expect_tag or "Live/NoLostAnnounce"})
+    got = [t for t in tags if ('viol = "%s"' % t) in out]
+    ctx.extra.setdefault("asis_design_counterexamples", []).append({"cfg": cfg, "obligation": (got[0] if got else "Live/NoLostAnnounce")})
 
 
 # ----------------------------------------------------------------------------------------------------------- traces
@@ -149,7 +151,8 @@ def prev_ann(s, pos, k=None, t=None, periodic=True):
 
 def brief(s, pos, n=14):
     """The scenario history up to pos (compact), for the replay file."""
-    keep = ("op", "now", "k", "t", "ev", "res", "kind", "iv", "miv", "dur", "pid", "left", "down", "up", "tp", "case", "out", "what", "n", "v")
+    keep = ("op", "now", "k", "t", "ev", "res", "kind", "iv", "miv", "dur", "pid", "left", "down", "up", "tp", "case", "out", "what", "n", "v",
+            "slot", "ok", "ks", "h", "same", "late", "answered", "after_ms", "status", "nmix", "nlost", "burst")
     rows = [{k: d[k] for k in keep if k in d} for p, d in s["lines"] if p <= pos and d["op"] != "tick"]
     return {"scenario": s["name"], "kind": s["kind"], "cfg": {k: s["init"][k] for k in ("ann", "tor", "trk", "cmin", "unit", "bo", "lat", "slk", "meta")},
             "history_tail": rows[-n:]}
@@ -190,6 +193,28 @@ def signature(tag, s, pos, d):
         pv = prev_ann(s, pos, t=d["t"])
         return "tag=%s members=%d after_full_cycle=%s repeats_member=%s" % (tag, nm, "yes" if fails >= nm else "no",
                                                                            "yes" if pv is not None and pv["k"] == d["k"] else "no")
+    if tag == "C16.tier.conc":
+        # tier-level history: the steps since the last "tnew" line
+        hist, order = [], None
+        for p, x in s["lines"]:
+            if p > pos:
+                break
+            if x["op"] == "tnew":
+                hist, order = [], x["ks"]
+            elif x["op"] in ("tl", "tr"):
+                hist.append(x)
+        running = {}
+        overlap_fail = False
+        for x in hist[:-1]:
+            if x["op"] == "tl":
+                running[x["slot"]] = x["k"]
+            else:
+                k = running.pop(x["slot"], None)
+                if not x["ok"] and k in running.values():
+                    overlap_fail = True
+        return "tag=%s members=%d overlapping_failures_on_one_member=%s" % (tag, len(order or []), "yes" if overlap_fail else "no")
+    if tag.startswith("C15.id.retransmit"):
+        return "tag=%s same_bytes=%s late=%s after_ms~%ds" % (tag, d.get("same"), d.get("late"), int(d.get("after_ms", 0)) // 1000)
     if tag == "C16.retry":
         last = None
         for p, x in s["lines"]:
@@ -269,11 +294,14 @@ def run(ctx):
         "a tier counts as one logical tracker for 'first announce says started'; 'stopped' is judged per member",
         "counters: left is compared with the generated torrent's length and the driver's Stats() at a quiescent point before Stop; "
         "downloaded is bounded by what the scripted seeder served",
+        "UDP retransmissions (same connection id / action / transaction id) are compared byte for byte with the first datagram of the "
+        "transaction; the 15 s BEP 15 retransmission timer is not configurable (method of udpBackOff), so that family runs in real time "
+        "in parallel with the others; Torrent.AddTracker is exercised in every torrent state (allocation / verification held by a storage gate)",
         "real time; scenarios run in parallel goroutines (they mostly sleep); the announce-storm scenarios run in a separate phase and are capped at 150 announces",
     ]
     # 2. implementation -> specification (driver started first: it runs while TLC works on step 1)
     drv = ctx.build_go("c15")
-    n = ctx.pick(30, 800)
+    n = ctx.pick(39, 806)     # multiples of 13: every scenario family (six AddTracker states, retransmission) is present
     tp = ctx.path("c15.ndjson")
     join = start_driver(ctx, drv, ["-seed", str(ctx.seed), "-n", str(n), "-par", str(ctx.pick(10, 14)), "-out", tp, "-root", ctx.path("drv", "x")],
                         ctx.pick(400, 1500))
@@ -324,6 +352,8 @@ def account(ctx, scs):
                 evs = {}
             if d["op"] == "start":
                 first = set()
+            if d["op"] == "rtx":
+                ob["C15.id.retransmit"] += 1
             if d["op"] != "ann":
                 continue
             ob["C15.id"] += 1
@@ -357,8 +387,11 @@ def account(ctx, scs):
         ctx.sample({"scenario": s["name"], "kind": s["kind"], "first_events": [
             {k: d[k] for k in ("op", "now", "k", "ev", "res", "iv", "miv", "tp", "left") if k in d} for _, d in s["lines"][:8]]})
     if ctx.prop == "C15":
-        need = ["C15.ev.started", "C15.ev.completed", "C15.ev.stopped", "C15.gap"]
+        need = ["C15.ev.started", "C15.ev.completed", "C15.ev.stopped", "C15.gap", "C15.id.retransmit"]
         miss = [x for x in need if ob[x] == 0]
+        kinds = {s["kind"] for s in scs}
+        miss += [k for k in ("addtracker-stopped", "addtracker-allocating", "addtracker-verifying", "addtracker-downloading",
+                             "addtracker-seeding", "addtracker-stopping") if k not in kinds]
         if miss or classes["tp=udp"] == 0 or classes["tp=http"] == 0:
             return "vacuous run: obligations never exercised: %s (classes %s)" % (miss, dict(classes))
     return None
